@@ -910,11 +910,7 @@ func (m *c10Mon) matches(rc *c10Recv, reg rollapptypes.GenesisInfo) bool {
 	return rc.ft != nil && rc.ft.Recv == 0 && rc.ft.Canon && rc.ft.Amt.Cmp(sum) == 0
 }
 
-<<<<<<< HEAD
-func gbBalEq(a, b map[uint64]*big.Int) bool {
-=======
 func c10BalEq(a, b map[uint64]*big.Int) bool {
->>>>>>> agent-ibc
 	for _, t := range c10Pool {
 		x, y := a[t], b[t]
 		if x == nil {
@@ -954,11 +950,7 @@ func (m *c10Mon) check(op, res string, rc *c10Recv, cur *c10Snap, digestBefore, 
 			m.violate("C10/genesis_info_frozen/not-sealed", fmt.Sprintf("r%d launched=%v plan=%v gi=%s", ri, p.Launched, p.HasPlan, p.GI))
 		}
 		// crediting happens only in a successful handshake
-<<<<<<< HEAD
-		if !(f[0] == "recv" && rc != nil && rc.ch.kind == 'c' && rc.ch.r == ri) && (!gbBalEq(p.Bal, c.Bal) || p.Tph != c.Tph || p.Md != c.Md) {
-=======
 		if !(f[0] == "recv" && rc != nil && rc.ch.kind == 'c' && rc.ch.r == ri) && (!c10BalEq(p.Bal, c.Bal) || p.Tph != c.Tph || p.Md != c.Md) {
->>>>>>> agent-ibc
 			m.violate("C10/credited_exactly/bridge-state-changed-outside-handshake", fmt.Sprintf("r%d by %s", ri, op))
 		}
 	}
@@ -1006,11 +998,7 @@ func (m *c10Mon) check(op, res string, rc *c10Recv, cur *c10Snap, digestBefore, 
 					delete(want, c10IroTok)
 					delete(c.Bal, c10IroTok)
 				}
-<<<<<<< HEAD
-				if !gbBalEq(want, c.Bal) || !gbBalEq(map[uint64]*big.Int{}, p.Bal) {
-=======
 				if !c10BalEq(want, c.Bal) || !c10BalEq(map[uint64]*big.Int{}, p.Bal) {
->>>>>>> agent-ibc
 					m.violate("C10/credited_exactly/credits-differ-from-registered-accounts", fmt.Sprintf("want %v got %v", want, c.Bal))
 				}
 				if c.Supply.Cmp(sum) != 0 {
@@ -1038,21 +1026,13 @@ func (m *c10Mon) check(op, res string, rc *c10Recv, cur *c10Snap, digestBefore, 
 				}
 			} else if !rc.success {
 				// mismatch_credits_nothing
-<<<<<<< HEAD
-				if digestBefore != digestAfter || !gbBalEq(p.Bal, c.Bal) || c.Tph != 0 || c.Md != p.Md || c.Plan != p.Plan {
-=======
 				if digestBefore != digestAfter || !c10BalEq(p.Bal, c.Bal) || c.Tph != 0 || c.Md != p.Md || c.Plan != p.Plan {
->>>>>>> agent-ibc
 					m.violate("C10/mismatch_credits_nothing/state-changed-on-error-ack", op)
 				}
 			}
 		} else {
 			// handshake_once
-<<<<<<< HEAD
-			if !gbBalEq(p.Bal, c.Bal) || c.Supply.Cmp(p.Supply) != 0 {
-=======
 			if !c10BalEq(p.Bal, c.Bal) || c.Supply.Cmp(p.Supply) != 0 {
->>>>>>> agent-ibc
 				if rc.kind == "gb" {
 					m.violate("C10/handshake_once/second-handshake-credited", op)
 				}
